@@ -1,6 +1,6 @@
 """C16 determinism and independence from the host's driving: the host loop over an abstract
 deterministic machine under every sequence of FrameCount / Max / breakpoint calls (S); scenarios
-(ROM boot, tape, key script) run on the real emulator under 19 drivings with a digest of the whole
+(ROM boot, tape, key script) run on the real emulator under 20 drivings with a digest of the whole
 machine after every frame (T)."""
 import json, os
 from vlib import *
@@ -140,8 +140,8 @@ def run(tier, seed):
     chk.cov["traces_validated_against_impl"] = runs
     chk.cov["rule"] = (f"{shards} shards x {4 if quick else 8} scenarios (48K/128K: ROM boot with a two-block tape started at a random frame; tape inserted with the "
                        "autoload snapshot and fast loading enabled, the tape stopped (requests served by the fast-load trap) or playing from the start "
-                       f"(real-time load); a program that programs and reads back the AY and reads the Kempston and keyboard/EAR ports every frame; random key presses at frame boundaries) x {100 if quick else 600} frames x 19 drivings: FrameCount(1) twice (repeatability), random FrameCount(n) partitions, "
-                       "Max mode, breakpoints every k instructions with resume (k random) and after every instruction (so that a stop coincides with every other per-instruction event), FrameCount(n) with breakpoint stops (twice), a different way of driving for every call (twice), sound off, AY off, audio never drained, tape asset "
+                       f"(real-time load); a program that programs and reads back the AY and reads the Kempston and keyboard/EAR ports every frame; random key presses at frame boundaries) x {100 if quick else 600} frames x 20 drivings: FrameCount(1) twice (repeatability), random FrameCount(n) partitions, "
+                       "Max mode, breakpoints every k instructions with resume (k random) and after every instruction (so that a stop coincides with every other per-instruction event), FrameCount(n) with breakpoint stops (twice), a different way of driving for every call (twice), sound off, AY off, both switched at run time every four frames, audio never drained, tape asset "
                        "with 1-byte reads, 7-byte reads with Ok(0) at EOF, a real file, gzip; digest = registers + clock + all RAM + screen and border "
                        "buffers + border colour + paging; audio stream compared where the drain policy is the same. Asset clause: "
                        f"{10 if quick else 80} files of 0..64 bytes x 6 asset implementations (BufferCursor, FileAsset, GzipAsset, DynamicAsset around each) "
